@@ -449,24 +449,29 @@ def build_lis(case):
     absent = Fraction(-3997, 4) if case.get('absent') is None else Fraction(case['absent'])
     # the X axis may be recorded in another unit than the one the plot interval is asked in (tenths of an inch against feet)
     xunits, xfactor = (b'.1IN', 120) if case.get('xunits') == '.1IN' else (b'FEET', 1)
+    # 'sb': (samples, bursts) of every data channel (each frame then holds that many copies of the channel's value);
+    # 'indirect': the X axis is not a channel but a value at the head of each data record plus the frame spacing (entry blocks 13-15)
+    sa, bu = case.get('sb', (1, 1))
+    indirect = bool(case.get('indirect'))
     ebs = [(1, 66, b'\x00'), (2, 66, b'\x00'), (4, 66, bytes([255 if case['down'] else 1])),
-           (8, 68, L.enc68(Fraction(1, 2) * xfactor)), (9, 65, xunits), (12, 68, L.enc68(absent)), (13, 66, b'\x00')]
-    dsbs = [L.dsb(b'DEPT', xunits, 4, 1, 68)]
+           (8, 68, L.enc68(Fraction(1, 2) * xfactor)), (9, 65, xunits), (12, 68, L.enc68(absent))]
+    ebs += [(13, 66, b'\x01'), (14, 65, xunits), (15, 66, bytes([68]))] if indirect else [(13, 66, b'\x00')]
+    dsbs = [] if indirect else [L.dsb(b'DEPT', xunits, 4, 1, 68)]
     for mnem, units, _s, _lo, _hi, _log in case['chans']:
-        dsbs.append(L.dsb(mnem.ljust(4).encode(), units.ljust(4).encode(), 4, 1, 68))
+        dsbs.append(L.dsb(mnem.ljust(4).encode(), units.ljust(4).encode(), 4 * sa * bu, sa, 68))
     recs.append(L.dfsr(ebs, dsbs))
     xs = x_values(case)
     chv = channel_values(case)
     frames = []
     for f in range(case['n']):
-        by = L.enc68(Fraction(xs[f]) * xfactor)
+        by = b'' if indirect else L.enc68(Fraction(xs[f]) * xfactor)
         for vals in chv:
             v = vals[f]
-            by += L.enc68(absent) if v is ABSENT else L.enc68(Fraction(v))
+            by += (L.enc68(absent) if v is ABSENT else L.enc68(Fraction(v))) * (sa * bu)
         frames.append(by)
     fpr = case.get('fpr', 4)
     for i in range(0, len(frames), fpr):
-        recs.append(L.data_record(0, frames[i:i + fpr]))
+        recs.append(L.data_record(0, frames[i:i + fpr], L.enc68(Fraction(xs[i]) * xfactor) if indirect else None))
     recs.append(L.file_head_tail(129))
     data, _lay = L.build_file(recs)
     return data
@@ -681,7 +686,8 @@ def check_svg(path, case, curves, sub=False):
             vals = chv.get(norm_name(c['outp']))
             if vals is None:
                 continue
-            limit += sum(1 for v in vals if v is not ABSENT)
+            # (a channel of several samples per frame holds samples x bursts values per frame; its samples have depths of their own)
+            limit += sum(1 for v in vals if v is not ABSENT) * case.get('sb', (1, 1))[0] * case.get('sb', (1, 1))[1]
         if len(g['ys']) > limit:
             bad.append(({'kind': 'more_points_than_values'},
                         '%s: curve(s) %s: %d distinct depths carry a data point but the channel(s) hold %d non-absent values'
@@ -1164,6 +1170,14 @@ def gen_film(tier):
         for rot in rots:
             for down in (False, True):
                 yield tables_case([FILM_EEE], three_curves(), three_chans(rot), n=n, down=down, fpr=fpr)
+    # an X axis that is implied (a value per data record plus the frame spacing) and channels of several samples and bursts per frame
+    for indirect in (False, True):
+        for sb in ((2, 8), (1, 4), (3, 1)):
+            for rot in (0, 2):
+                for down in (False, True):
+                    for film in (FILM_EEE, ['1', 'EEE', '----', 'PF1', 'D20 ']):
+                        c = tables_case([film], three_curves(), three_chans(rot), n=24, down=down, fpr=4)
+                        yield dict(c, sb=list(sb), indirect=indirect)
     # channel / curve names a LIS file may hold that are awkward inside an SVG (the plot names each curve in a comment and a legend)
     for name in ('E---', '----', 'A-B', 'C--D', '-', 'A&B', '<GR>', 'A"B', "A'B"):
         for rot in (0, 3):
